@@ -27,8 +27,9 @@ STATE = 'actor::model_state::ActorModelState'
 def actor_indexed_fields(F):
     """fields of ActorModelState that actor::model indexes with usize::from(Id) / an actor index"""
     out = set()
+    import roles
     for path in (NS, PC, ACTIONS):
-        b = F.body(path)
+        b = roles.process_commands(F) if path == PC else F.body(path)
         for x in bodies_with_closures(F, b):
             for c in x.calls_to('Index::index', 'IndexMut::index_mut', 'slice::get', 'Vec::get'):
                 if len(c.args) < 2:
